@@ -25,6 +25,7 @@ func (r *cancelReader) Read(p []byte) (int, error) {
 	var err error
 	wait := make(chan struct{}, 1)
 	go func() {
+		simYield(r, "read", 0)
 		c, err = r.r.Read(p)
 		close(wait)
 	}()
